@@ -113,22 +113,66 @@ def gen_code():
     the translated subset is left out of the file together with the targets that call it (exit status 2:
     everything else is still generated), so only the lemmas about the affected functions
     (Proofs/Code*.v) stop compiling and only the properties that import those report the broken tie.
+    The same holds for a function that translates but whose translation does not type-check in Coq
+    (e.g. a comparison emitted for the wrong type after a rename): Gen/Code.v is compiled here, the
+    definition at the error position is named to rs2coq (--skip) and the file is regenerated without it.
     Any other failure replaces the file by a stub without definitions."""
     build_rs2coq()
     dest = os.path.join(COQ, "Gen", "Code.v")
-    rc, out = sh([RS2COQ, REPO, os.path.join(VERIF, "rs2coq", "targets.txt"), dest])
-    if rc == 2 and os.path.exists(dest):
-        log("NOTE rs2coq (partial): " + out.strip()[:900])
-    elif rc != 0:
-        stub = "(* GENERATED: translation FAILED on this run *)\n(* %s *)\n" % out.strip().replace("*)", "* )")[:3000]
-        if not os.path.exists(dest) or open(dest).read() != stub:
-            open(dest, "w").write(stub)
-        log("NOTE rs2coq: " + out.strip()[:600])
+    targets = os.path.join(VERIF, "rs2coq", "targets.txt")
+    skip = []
+    out = ""
+    for attempt in range(8):
+        cmd = [RS2COQ, REPO, targets, dest] + (["--skip", ",".join(skip)] if skip else [])
+        rc, out = sh(cmd)
+        if rc not in (0, 2) or not os.path.exists(dest):
+            stub = "(* GENERATED: translation FAILED on this run *)\n(* %s *)\n" % out.strip().replace("*)", "* )")[:3000]
+            if not os.path.exists(dest) or open(dest).read() != stub:
+                open(dest, "w").write(stub)
+            log("NOTE rs2coq: " + out.strip()[:600])
+            return out
+        if rc == 2:
+            log("NOTE rs2coq (partial): " + out.strip()[:900])
+        bad = code_type_error(dest)
+        if bad is None:
+            return out
+        if bad == "" or bad in skip:
+            log("NOTE Gen/Code.v does not type-check and the failing definition could not be isolated")
+            return out
+        log("NOTE Gen/Code.v: the translation of %s does not type-check; regenerating without it" % bad)
+        skip.append(bad)
     return out
 
 
+def code_type_error(dest):
+    """compile Gen/Code.v (after its dependencies); None if it checks, otherwise the name of the
+    generated definition that contains the error position ('' if it cannot be determined)"""
+    with Lock("coq"):
+        coq_makefile()
+        rc, deps = sh(["coqdep", "-Q", ".", "RV", "Gen/Code.v"], cwd=COQ)
+        m = re.search(r":\s*(.*)", deps.replace("\\\n", " "))
+        dep_vos = [d for d in (m.group(1).split() if m else []) if d.endswith(".vo")]
+        rc, out = sh(["timeout", "900", "make", "-j%d" % NCPU] + dep_vos, cwd=COQ, timeout=1000)
+        if rc != 0:
+            return None          # the models themselves do not build: reported by the property's own build
+        rc, out = sh(["timeout", "600", "make", "Gen/Code.vo"], cwd=COQ, timeout=650)
+    if rc == 0:
+        return None
+    m = re.search(r'File "\./Gen/Code\.v", line (\d+)', out)
+    if not m:
+        return ""
+    line = int(m.group(1))
+    name = ""
+    for i, l in enumerate(open(dest).read().split("\n"), 1):
+        mm = re.match(r"(?:Definition|Fixpoint) ([A-Za-z0-9_']+)", l)
+        if mm:
+            if i > line:
+                break
+            name = mm.group(1)
+    return name
+
+
 def gen_tables():
-    gen_code()
     with Lock("coq"):
         rc, out = sh([sys.executable, os.path.join(VERIF, "py", "gen_tables.py"), HARNESS,
                       os.path.join(COQ, "Gen", "Tables.v")])
@@ -140,6 +184,7 @@ def gen_tables():
             rc, out2 = sh([sys.executable, gs, REPO, os.path.join(COQ, "Gen", "Sites.v")])
             if rc != 0:
                 raise CheckFailure("site generation failed:\n" + out2)
+    gen_code()      # after the tables: Gen/Code.v is compiled against today's Gen/Tables.v
     return out + out2
 
 
